@@ -64,6 +64,9 @@ type HarnessResult struct {
 	PathBudget   bool
 	Distinct     map[string]bool // distinct outcome signatures
 	ForkSites    map[string]int
+	CrossAsked   int
+	CrossAgreed  int
+	CrossSkipped int
 }
 
 func (e *Explorer) Start() error {
@@ -262,6 +265,10 @@ func (e *Explorer) Run(harness string, maxPaths int, maxSamples int) (*HarnessRe
 			res.ForkSites[k] += v
 		}
 		m.Stats.ForkSites = map[string]int{}
+		res.CrossAsked += m.Stats.CrossAsked
+		res.CrossAgreed += m.Stats.CrossAgreed
+		res.CrossSkipped += m.Stats.CrossSkipped
+		m.Stats.CrossAsked, m.Stats.CrossAgreed, m.Stats.CrossSkipped = 0, 0, 0
 		for k, v := range m.Stats.Funcs {
 			if d := v - snaps[i].funcs[k]; d > 0 {
 				res.Funcs[k] += d
